@@ -242,4 +242,4 @@ QUERIES = [
                                "values": "symbolic ints in the re-evaluation part"},
           outside=["handles to ReferenceProxy objects", "deletion triggered by reload/copy/Excel import", "nested ItemSpaces"]),
 ]
-BUDGET = {"quick": 420, "thorough": 1500}
+BUDGET = {"quick": 420, "thorough": 1200}
